@@ -64,6 +64,18 @@ func TestProp_Rotation(t *testing.T) {
 		if w.NodeID != nil {
 			w.NodeID.EmptyOnMiss = rapid.Bool().Draw(t, "emptySetOnMiss")
 		}
+		// Some server applications build their option sets ONCE and reuse them: a plain
+		// set and, from the same base slice (which has spare capacity, as slices grown
+		// by append do), one with wider clock skews. Each is passed to the library as
+		// it is, call after call.
+		var plainSet, skewSet []nodeenrollment.Option
+		reusedSets := rapid.IntRange(0, 2).Draw(t, "applicationReusesOptionSetsBuiltFromOneBase") == 0
+		if reusedSets {
+			base := make([]nodeenrollment.Option, len(w.Opts), len(w.Opts)+2)
+			copy(base, w.Opts)
+			plainSet = base
+			skewSet = append(base, nodeenrollment.WithNotBeforeClockSkew(-time.Hour), nodeenrollment.WithNotAfterClockSkew(time.Hour))
+		}
 		records := map[string]*rec{} // by name, records present in storage
 		gone := map[string]*rec{}    // removed records (their actors still hold keys)
 		var hist []string
@@ -357,7 +369,14 @@ func TestProp_Rotation(t *testing.T) {
 					callOpts = append(callOpts, nodeenrollment.WithNotBeforeClockSkew(-time.Hour), nodeenrollment.WithNotAfterClockSkew(time.Hour))
 					flags["window-valid-only-under-configured-skew"] = true
 				}
-				if rapid.IntRange(0, 2).Draw(t, "callerPassesState") == 0 {
+				if reusedSets {
+					// the very same slices, call after call (no state option of the caller's)
+					callOpts = plainSet
+					if needSkew {
+						callOpts = skewSet
+					}
+					flags["application-reuses-option-sets-built-from-one-base"] = true
+				} else if rapid.IntRange(0, 2).Draw(t, "callerPassesState") == 0 {
 					callOpts = append(callOpts, nodeenrollment.WithState(vkit.UniqueStruct(fmt.Sprintf("caller-state-%d", len(hist)))))
 					flags["caller-passes-state-option"] = true
 					rp.CallerState = true
